@@ -285,7 +285,11 @@ psRes_t psX509ParseCertData(psPool_t *pool,
                 certData->len,
                 &current,
                 flags);
-        if (err < 0 && !(flags & CERT_ALLOW_BUNDLE_PARTIAL_PARSE))
+        /* With CERT_ALLOW_BUNDLE_PARTIAL_PARSE psX509ParseCert reports
+           certificates it could not parse in its (non-negative) count and
+           keeps them in the list; a negative value is a memory failure
+           there as well, and 'current' may then be NULL */
+        if (err < 0)
         {
             psX509FreeCert(current);
             psFreeList(certDatas, pool);
@@ -1000,7 +1004,7 @@ static int parse_single_cert(psPool_t *pool, const unsigned char **pp,
             {
                 cert->parseStatus = PS_X509_UNSUPPORTED_ECC_CURVE;
             }
-            func_rc = PS_PARSE_FAIL;
+            func_rc = (rc == PS_MEM_FAIL) ? PS_MEM_FAIL : PS_PARSE_FAIL;
             goto out;
         }
         /* keysize will be the size of the public ecc key (2 * privateLen) */
@@ -1087,15 +1091,21 @@ static int parse_single_cert(psPool_t *pool, const unsigned char **pp,
        (if anything is left of the input at all) */
     if (p < end && *p != (ASN_SEQUENCE | ASN_CONSTRUCTED))
     {
-        if (getImplicitBitString(pool, &p, (uint32) (end - p),
+        if ((rc = getImplicitBitString(pool, &p, (uint32) (end - p),
                         IMPLICIT_ISSUER_ID, &cert->uniqueIssuerId,
-                        &cert->uniqueIssuerIdLen) < 0 ||
-                getImplicitBitString(pool, &p, (uint32) (end - p),
+                        &cert->uniqueIssuerIdLen)) < 0 ||
+                (rc = getImplicitBitString(pool, &p, (uint32) (end - p),
                         IMPLICIT_SUBJECT_ID, &cert->uniqueSubjectId,
-                        &cert->uniqueSubjectIdLen) < 0 ||
-                getExplicitExtensions(pool, &p, (uint32) (end - p),
-                        EXPLICIT_EXTENSION, &cert->extensions, 0) < 0)
+                        &cert->uniqueSubjectIdLen)) < 0 ||
+                (rc = getExplicitExtensions(pool, &p, (uint32) (end - p),
+                        EXPLICIT_EXTENSION, &cert->extensions, 0)) < 0)
         {
+            if (rc == PS_MEM_FAIL)
+            {
+                /* Not an extension we do not know: out of memory */
+                func_rc = PS_MEM_FAIL;
+                goto out;
+            }
             psTraceCrypto("There was an error parsing a certificate\n"
                     "extension.  This is likely caused by an\n"
                     "extension format that is not currently\n"
@@ -1495,7 +1505,10 @@ int32 psX509ParseCert(psPool_t *pool, const unsigned char *pp, uint32 size,
         else
         {
             psAssert(cert->parseStatus != PS_X509_PARSE_SUCCESS);
-            if (!(flags & CERT_ALLOW_BUNDLE_PARTIAL_PARSE))
+            /* A certificate the parser does not support may be skipped;
+               running out of memory is not that */
+            if (!(flags & CERT_ALLOW_BUNDLE_PARTIAL_PARSE)
+                    || rc == PS_MEM_FAIL)
             {
                 return rc;
             }
@@ -4112,6 +4125,7 @@ int32_t getExplicitExtensions(psPool_t *pool, const unsigned char **pp,
     psAsnOid_t asnOid;
     oid_e noid;
     uint32_t seenExt = 0;
+    int32_t rc;
 
 #  ifdef USE_FULL_CERT_PARSE
     psSize_t subExtLen;
@@ -4351,11 +4365,11 @@ KNOWN_EXT:
                 memory problems for a couple users.  Set the -1 here to
                 something reasonable (5) if you've found yourself here
                 for this memory reason */
-            if (parseGeneralNames(pool, &p, len, extEnd, &extensions->san,
-                    -1) < 0)
+            if ((rc = parseGeneralNames(pool, &p, len, extEnd, &extensions->san,
+                    -1)) < 0)
             {
                 psTraceCrypto("Error parsing altSubjectName names\n");
-                return PS_PARSE_FAIL;
+                return (rc == PS_MEM_FAIL) ? PS_MEM_FAIL : PS_PARSE_FAIL;
             }
 
             break;
@@ -4544,20 +4558,20 @@ KNOWN_EXT:
                     subExtLen -= len + (p - subSave);
                     if (nc == 0)
                     {
-                        if (parseGeneralNames(pool, &p, len, extEnd,
-                                &extensions->nameConstraints.permitted, -1) < 0)
+                        if ((rc = parseGeneralNames(pool, &p, len, extEnd,
+                                &extensions->nameConstraints.permitted, -1)) < 0)
                         {
                             psTraceCrypto("Error parsing nameConstraint\n");
-                            return PS_PARSE_FAIL;
+                            return (rc == PS_MEM_FAIL) ? PS_MEM_FAIL : PS_PARSE_FAIL;
                         }
                     }
                     else
                     {
-                        if (parseGeneralNames(pool, &p, len, extEnd,
-                                &extensions->nameConstraints.excluded, -1) < 0)
+                        if ((rc = parseGeneralNames(pool, &p, len, extEnd,
+                                &extensions->nameConstraints.excluded, -1)) < 0)
                         {
                             psTraceCrypto("Error parsing nameConstraint\n");
-                            return PS_PARSE_FAIL;
+                            return (rc == PS_MEM_FAIL) ? PS_MEM_FAIL : PS_PARSE_FAIL;
                         }
                     }
                 }
@@ -4630,11 +4644,11 @@ KNOWN_EXT:
                             psTraceCrypto("ASN get len error in CRL extension\n");
                             return PS_PARSE_FAIL;
                         }
-                        if (parseGeneralNames(pool, &p, len, extEnd,
-                                &extensions->crlDist, -1) < 0)
+                        if ((rc = parseGeneralNames(pool, &p, len, extEnd,
+                                &extensions->crlDist, -1)) < 0)
                         {
                             psTraceCrypto("dist gen name parse fail\n");
-                            return PS_PARSE_FAIL;
+                            return (rc == PS_MEM_FAIL) ? PS_MEM_FAIL : PS_PARSE_FAIL;
                         }
                     }
                     else if ((*p & 0xF) == 1)         /* RelativeDistName */
@@ -4758,11 +4772,11 @@ KNOWN_EXT:
                     psTraceCrypto("ASN get len error2 in authKeyId extension\n");
                     return PS_PARSE_FAIL;
                 }
-                if (psX509GetDNAttributes(pool, &p, (int32) (extEnd - p),
-                        &(extensions->ak.attribs), 0) < 0)
+                if ((rc = psX509GetDNAttributes(pool, &p, (int32) (extEnd - p),
+                        &(extensions->ak.attribs), 0)) < 0)
                 {
                     psTraceCrypto("Error parsing ak.attribs\n");
-                    return PS_PARSE_FAIL;
+                    return (rc == PS_MEM_FAIL) ? PS_MEM_FAIL : PS_PARSE_FAIL;
                 }
             }
             if ((*p == (ASN_CONTEXT_SPECIFIC | ASN_PRIMITIVE | 2)) ||
@@ -4771,11 +4785,11 @@ KNOWN_EXT:
 /*
                     Treat as a serial number (not a native INTEGER)
  */
-                if (getSerialNum(pool, &p, (int32) (extEnd - p),
-                        &(extensions->ak.serialNum), &len) < 0)
+                if ((rc = getSerialNum(pool, &p, (int32) (extEnd - p),
+                        &(extensions->ak.serialNum), &len)) < 0)
                 {
                     psTraceCrypto("Error parsing ak.serialNum\n");
-                    return PS_PARSE_FAIL;
+                    return (rc == PS_MEM_FAIL) ? PS_MEM_FAIL : PS_PARSE_FAIL;
                 }
                 extensions->ak.serialNumLen = len;
             }
@@ -4887,11 +4901,11 @@ KNOWN_EXT:
                 memory problems for a couple users.  Set the -1 here to
                 something reasonable (5) if you've found yourself here
                 for this memory reason */
-            if (parseGeneralNames(pool, &p, len, extEnd, &extensions->issuerAltName,
-                    -1) < 0)
+            if ((rc = parseGeneralNames(pool, &p, len, extEnd, &extensions->issuerAltName,
+                    -1)) < 0)
             {
                 psTraceCrypto("Error parsing altSubjectName names\n");
-                return PS_PARSE_FAIL;
+                return (rc == PS_MEM_FAIL) ? PS_MEM_FAIL : PS_PARSE_FAIL;
             }
             break;
 #  endif    /* USE_FULL_CERT_PARSE */
